@@ -81,9 +81,10 @@ class StandardNode(XmlNode):
         )
 
         if obj is None and not self.nillable:
-            obj = ""
+            obj = b"" if self.datatype.type is bytes else ""
 
-        if self.datatype.wrapper:
+        if self.datatype.wrapper and isinstance(obj, self.datatype.type):
+            # The raw text is kept when the conversion has failed
             obj = self.datatype.wrapper(obj)
 
         if self.derived_factory:
